@@ -19,6 +19,11 @@ import (
 	"strings"
 )
 
+// trFuelParam: functions whose loops take their fuel as an explicit parameter
+var trFuelParam = map[string]bool{
+	trKnutPath + "lib/model/price.Prices.normalize": true,
+}
+
 // freeVars: local variables (parameters included) read inside the nodes and declared outside, minus `except`
 func (c *trCtx) freeVars(except []types.Object, nodes ...ast.Node) []types.Object {
 	defined := map[types.Object]bool{}
@@ -130,7 +135,17 @@ func (c *trCtx) forStmt(x *ast.ForStmt, k trK) trLines {
 	c.nloop++
 	name := c.fn.leanName + ".loop" + itoa(c.nloop)
 
-	fuel := c.fuelOf(x.Cond)
+	var fuel string
+	if trFuelParam[c.fn.pkg.path+"."+c.fn.leanName] {
+		// no bound can be derived from the condition (the loop also grows what it consumes): the fuel is an explicit parameter of the
+		// translated function and the agreement theorem says for which values it suffices
+		c.norder++
+		fuel = "fuel" + itoa(c.norder)
+		c.extraParams = append(c.extraParams, "("+fuel+" : Nat)")
+		c.extraTypes = append(c.extraTypes, "Nat")
+	} else {
+		fuel = c.fuelOf(x.Cond)
+	}
 	if len(c.pre) > 0 {
 		trFail(x.Cond.Pos(), "a loop bound that can panic is outside the subset")
 	}
@@ -436,6 +451,7 @@ func (c *trCtx) rangeRec(x *ast.RangeStmt, elemTy types.Type, m *types.Map, k tr
 		c.norder++
 		ord := "order" + itoa(c.norder)
 		c.extraParams = append(c.extraParams, "("+ord+" : List "+et+")")
+		c.extraTypes = append(c.extraTypes, "List "+et)
 		list = ord
 	}
 	callParts := append([]string{}, callArgs...)
